@@ -891,6 +891,33 @@ impl Generator {
     }
 }
 
+/// Verification hook (only compiled with `--cfg a4lg_ffuzzy_verif`; see /verif).
+#[cfg(a4lg_ffuzzy_verif)]
+impl Generator {
+    /// Returns a generator in the state it has after consuming `n` zero bytes.
+    ///
+    /// Zero bytes never end a piece (the rolling hash stays zero and zero plus
+    /// one is not a multiple of the minimum block size), so only the input size,
+    /// the rolling window index and the FNV states of the first context differ
+    /// from a newly created generator.  This makes input sizes that nobody can
+    /// feed (tens of GiB) reachable for replaying.
+    pub fn verif_after_zero_bytes(n: u64) -> Self {
+        let mut generator = Self::new();
+        generator.0.input_size = n;
+        // The window stays all-zero; only its index advances (period: window size).
+        for _ in 0..(n % RollingHash::WINDOW_SIZE as u64) {
+            generator.0.roll_hash.update_by_byte(0);
+        }
+        // A zero byte multiplies the 6-bit FNV state by an odd constant modulo 64:
+        // the state sequence has a period dividing 16.
+        for _ in 0..(n % 16) {
+            generator.0.bh_context[0].h_full.update_by_byte(0);
+            generator.0.bh_context[0].h_half.update_by_byte(0);
+        }
+        generator
+    }
+}
+
 impl Default for Generator {
     fn default() -> Self {
         Self::new()
